@@ -183,7 +183,9 @@ EXTRA_BOUNDED = {
                 # the sizers' "an unavailable price is rejected" rests on the source answering NaN before the first bar
                 'C10': ['no-bar-before-t-gives-nan'], 'C11': ['no-bar-before-t-gives-nan'],
                 # signals are fed the handler's (adjusted) close of the source the session was given
-                'C16': ['cache-transparent', 'adjustment']},
+                'C16': ['cache-transparent', 'adjustment'],
+                # a session's fills and equity rest on a source whose answers do not depend on what it was asked before
+                'C08': ['cache-transparent']},
     # a clock that can be walked only once meets no schedule and runs no session the second time
     'c12_calendar': {'C13': ['every-traversal-is-complete', 'event-times-utc', 'dates-exactly-business-days'],
                      'C14': ['every-traversal-is-complete', 'event-times-utc', 'dates-exactly-business-days']},
